@@ -125,8 +125,15 @@ def run(names, tier='quick', props=None):
         finally:
             sh(['git', '-C', '/repo', 'checkout', '--', '.'])
             sh(['git', '-C', '/repo', 'clean', '-fdq'])
+        if not names:
+            write_results(sd, rows, tier, names, partial='%d changes evaluated so far' % len(rows))
     for r in rows:
         print('\t'.join(r))
+    write_results(sd, rows, tier, names)
+    return rows
+
+
+def write_results(sd, rows, tier, names, partial=None):
     if not names:
         # a full run: record which checks catch which changes
         with open(os.path.join(sd, 'RESULTS.md'), 'w') as f:
@@ -141,7 +148,8 @@ def run(names, tier='quick', props=None):
                 res = r[2] + (' (correspondence / proof tie only: no-failing-input-found)' if len(r) > 3 and 'no-failing-input-found' in r[3] else '')
                 f.write('| %s | %s | %s | %s | %s |\n' % (r[0], r[1], res, str(meta.get('summary', '')).replace('|', '/').replace('\n', ' '),
                                                      str(meta.get('needs', '')).replace('|', '/').replace('\n', ' ')))
-    return rows
+            if partial:
+                f.write('\n(run in progress: %s)\n' % partial)
 
 
 if __name__ == '__main__':
